@@ -22,7 +22,7 @@ fn inline_runs(a: &Analysis, ci: usize, pre: usize, post: usize, key: Key) -> (B
             if !r.cmds.is_empty() {
                 busy_bodies = true;
             }
-            if r.parent == Some(ci) && !r.replay && keys_of_obs(&r.obs).contains(&key) {
+            if r.parent == Some(ci) && !r.replay && (keys_of_obs(&r.obs).contains(&key) || blind_inline_run(a, r, ci, key)) {
                 *m.entry(r.inst).or_insert(0) += 1;
             }
         }
